@@ -216,7 +216,9 @@ def job_resync(num_pols, op, start_flag):
     pre = [sr.t > 0]
     dt = 1 / sr.t
     n = 4
-    with volt_patches(proxy=proxy()):
+    want = g.t if op == 'set_time' else (tarr.t + g.t if op == 'add_time' else tarr.t)
+
+    def run():
         arr = A.MultiAntennaArray(num_antennas=2, sample_rate=sr, fch1=fch1, ascending=True, num_pols=num_pols, delays=delays, t_start=t0, seed=5)
         for ai, ant in enumerate(arr.antennas):
             for st in ant.streams:
@@ -238,31 +240,47 @@ def job_resync(num_pols, op, start_flag):
                 k += 1
         if op == 'set_time':
             arr.set_time(g)
-            want = g.t
         elif op == 'add_time':
             arr.add_time(g)
-            want = tarr.t + g.t
         else:
             arr.reset_start()
-            want = tarr.t
         clocks = [arr.t_start] + [bg.t_start for bg in arr.bg_streams] + [ant.t_start for ant in arr.antennas] + [st.t_start for ant in arr.antennas for st in ant.streams]
-        out = arr.get_samples(n)
-    pairs = [((lift(c), RV(0)), (want, RV(0))) for c in clocks]
+        return clocks, arr.get_samples(n)
+    # (the code may branch on the requested instant -- e.g. treat 0 specially: every branch is a path of its own)
+    with volt_patches(proxy=proxy()):
+        leaves = core.explore(run, pre, cap=16)
     mx = max(delays)
     two_pi = RV(TWO_PI)
-    for i in range(2):
-        for pol in range(num_pols):
-            for j in range(n):
-                own = lvl.t * UF('COS')(two_pi * ((f0.t - fch1.t) * (want + RV(j) * dt)) + RV(0))
-                tb = want + RV(j + mx - delays[i]) * dt
-                bgv = lvl.t * UF('COS')(two_pi * ((2 * f0.t - fch1.t) * tb) + RV(0))
-                pairs.append((cparts(out[i, pol, j]), (own + bgv, RV(0))))
     pl = dict(fn='resync', num_pols=num_pols, op=op, start_flag=start_flag)
-    dis = diff_terms(pairs)
-    r, m = core.check(pre + [z3.Or(*dis)] if dis else [z3.BoolVal(False)], timeout_ms=120000)
-    recs.append(q(tag, r, terms=len(dis)))
-    if r == 'sat':
-        recs.append(cex('C15:resync', f"after {op} on an array whose stream clocks / caches had diverged (start flag {start_flag}), the next request is not aligned at the requested instant", pl, name=tag))
+    conds = []
+    for li, leaf in enumerate(leaves):
+        conds.append(leaf.cond())
+        base = pre + leaf.pc + leaf.side
+        name = tag + (f":leaf{li}" if len(leaves) > 1 else '')
+        if leaf.kind == 'exc':
+            r, m = core.check(base, timeout_ms=30000)
+            recs.append(q(name + ':noexc', r, detail=repr(leaf.value)))
+            if r == 'sat':
+                recs.append(cex('C15:resync:raise', f'{op} raised {leaf.value!r}', dict(pl, vals=core.model_vals(m, ['gap', 't_arr'])), name=name + ':noexc'))
+            continue
+        clocks, out = leaf.value
+        pairs = [((lift(c), RV(0)), (want, RV(0))) for c in clocks]
+        for i in range(2):
+            for pol in range(num_pols):
+                for j in range(n):
+                    own = lvl.t * UF('COS')(two_pi * ((f0.t - fch1.t) * (want + RV(j) * dt)) + RV(0))
+                    tb = want + RV(j + mx - delays[i]) * dt
+                    bgv = lvl.t * UF('COS')(two_pi * ((2 * f0.t - fch1.t) * tb) + RV(0))
+                    pairs.append((cparts(out[i, pol, j]), (own + bgv, RV(0))))
+        dis = diff_terms(pairs)
+        r, m = core.check(base + [z3.Or(*dis)] if dis else [z3.BoolVal(False)], timeout_ms=120000)
+        recs.append(q(name, r, terms=len(dis)))
+        if r == 'sat':
+            recs.append(cex('C15:resync', f"after {op} on an array whose stream clocks / caches had diverged (start flag {start_flag}), the next request is not aligned at the requested instant",
+                            dict(pl, vals=core.model_vals(m, ['gap', 't_arr'])), name=name))
+    if len(leaves) > 1:
+        r, _ = core.check(pre + [z3.Not(z3.Or(*conds))], timeout_ms=30000)
+        recs.append(q(tag + ':split-complete', r, leaves=len(leaves)))
     return recs
 
 
@@ -327,6 +345,16 @@ def replay_update_noise_mid(p):
 
 
 def replay_resync(p):
+    bad, msg = _replay_resync(p, None)
+    v = p.get('vals') or {}
+    # the requested instant the solver used, and the boundary value 0 (a rewind to the very beginning)
+    for tv in (v.get('gap'), 0.0):
+        if not bad and tv is not None and abs(tv) < 1e6 and p['op'] == 'set_time':
+            bad, msg = _replay_resync(p, float(tv))
+    return bad, msg
+
+
+def _replay_resync(p, t_req):
     from setigen.voltage import antenna as an
     delays = [0, 2]
     arr = an.MultiAntennaArray(num_antennas=2, sample_rate=1000.0, fch1=0.0, ascending=True, num_pols=p['num_pols'], delays=delays, t_start=1.0, seed=1)
@@ -345,8 +373,8 @@ def replay_resync(p):
         for st in ant.streams:
             st.t_start, st.start_obs = 9.5 + a, False
     if p['op'] == 'set_time':
-        arr.set_time(20.0)
-        want = 20.0
+        want = 20.0 if t_req is None else t_req
+        arr.set_time(want)
     elif p['op'] == 'add_time':
         arr.add_time(0.5)
         want = 5.5
